@@ -32,6 +32,8 @@ type frameSummary struct {
 	key        string
 	writes     []string     // descriptions of direct shared writes
 	modParams  map[int]bool // parameter indexes (receiver = -1) written through
+	deepParams map[int]bool // ... by a write that is not an assignment to the parameter's own pointee (`*p = v`, `p.f = v`)
+	shallowMsg map[string]bool
 	calls      []frameCall
 	freshRes   bool // all reference-typed results are fresh
 	leaks      []string
@@ -50,6 +52,7 @@ type frameArg struct {
 	shared    bool
 	fromParam int // -2 none
 	text      string
+	exact     bool // the argument is one of our pointer parameters itself (possibly converted)
 }
 
 type frameChecker struct {
@@ -102,7 +105,7 @@ func (fcx *frameChecker) summary(key string) *frameSummary {
 	if s, ok := fcx.sums[key]; ok {
 		return s
 	}
-	s := &frameSummary{key: key, modParams: map[int]bool{}, freshRes: true}
+	s := &frameSummary{key: key, modParams: map[int]bool{}, deepParams: map[int]bool{}, shallowMsg: map[string]bool{}, freshRes: true}
 	fcx.sums[key] = s
 	fi := fcx.w.funcs[key]
 	if fi == nil || fi.Decl.Body == nil {
@@ -740,6 +743,34 @@ func (fcx *frameChecker) sharedWrites(key string, seen map[string]bool, depth in
 	return out
 }
 
+// shallowRecvWrites: like sharedWrites, but assignments to the receiver's own
+// pointee are allowed (own ones and those of callees handed the receiver itself).
+func (fcx *frameChecker) shallowRecvWrites(key string) []string {
+	s := fcx.summary(key)
+	var out []string
+	for _, w := range s.writes {
+		if !s.shallowMsg[w] {
+			out = append(out, w)
+		}
+	}
+	for _, c := range s.calls {
+		mods := fcx.calleeMods(c.callee, map[string]bool{}, 0)
+		if mods == nil {
+			continue
+		}
+		deep := fcx.calleeDeepMods(c.callee, map[string]bool{}, 0)
+		for i, a := range c.args {
+			if !a.shared {
+				continue
+			}
+			if deep[i] || (mods[i] && !(a.exact && a.fromParam == -1)) {
+				out = append(out, fmt.Sprintf("%s: call of %s writes through argument %s", c.pos, strings.TrimPrefix(c.callee, modPath+"/"), a.text))
+			}
+		}
+	}
+	return out
+}
+
 // calleeMods: parameter indexes the callee (transitively) writes through.
 func (fcx *frameChecker) calleeMods(key string, seen map[string]bool, depth int) map[int]bool {
 	if m, ok := stdlibMods[key]; ok {
@@ -790,6 +821,65 @@ func (fcx *frameChecker) calleeMods(key string, seen map[string]bool, depth int)
 		cm := fcx.calleeMods(c.callee, seen, depth+1)
 		for i, a := range c.args {
 			if a.shared && cm[i] && a.fromParam != -2 {
+				r[a.fromParam] = true
+			}
+		}
+	}
+	return r
+}
+
+// calleeDeepMods: parameter indexes through which the callee (transitively) writes memory other
+// than the parameter's own pointee.
+func (fcx *frameChecker) calleeDeepMods(key string, seen map[string]bool, depth int) map[int]bool {
+	if m, ok := stdlibMods[key]; ok {
+		r := map[int]bool{}
+		for _, i := range m {
+			r[i] = true
+		}
+		return r
+	}
+	fi := fcx.w.funcs[key]
+	if fi == nil {
+		// method of a repository interface: any implementer may be the callee
+		// (closed world)
+		if impls := fcx.implMethods(key); len(impls) > 0 {
+			if seen[key] || depth > 40 {
+				return map[int]bool{}
+			}
+			seen[key] = true
+			r := map[int]bool{}
+			for _, ik := range impls {
+				for i := range fcx.calleeDeepMods(ik, seen, depth+1) {
+					r[i] = true
+				}
+			}
+			return r
+		}
+		// callees outside the repository: pure by package / by name, else
+		// conservatively assumed to write through every reference argument
+		if pureForeign(key) {
+			return map[int]bool{}
+		}
+		r := map[int]bool{}
+		for i := -1; i < 8; i++ {
+			r[i] = true
+		}
+		return r
+	}
+	if seen[key] || depth > 40 {
+		return map[int]bool{}
+	}
+	seen[key] = true
+	s := fcx.summary(key)
+	r := map[int]bool{}
+	for i := range s.deepParams {
+		r[i] = true
+	}
+	for _, c := range s.calls {
+		cd := fcx.calleeDeepMods(c.callee, seen, depth+1)
+		cm := fcx.calleeMods(c.callee, map[string]bool{}, 0)
+		for i, a := range c.args {
+			if a.shared && a.fromParam != -2 && (cd[i] || (cm[i] && !a.exact)) {
 				r[a.fromParam] = true
 			}
 		}
@@ -857,7 +947,11 @@ func (w *World) checkFrames(prop string) []frameResult {
 			// (a) the entry point's own writes to caller-visible memory, and calls
 			// that pass caller-visible memory to a callee that (transitively)
 			// writes through that parameter
-			for _, p := range fcx.sharedWrites(key, map[string]bool{}, 0) {
+			own := fcx.sharedWrites(key, map[string]bool{}, 0)
+			if fd.Shallow {
+				own = fcx.shallowRecvWrites(key)
+			}
+			for _, p := range own {
 				problems = append(problems, strings.TrimPrefix(key, modPath+"/")+": "+p)
 			}
 			// (b) writes to package-level variables anywhere in the call graph
